@@ -15,20 +15,22 @@ use super::*;
 //@include prelude/iter_ext.rs
 //@include prelude/iter_slice.rs
 //@include prelude/str_dotted.rs
+//@include prelude/box_asref.rs
 //@include prelude/imports_extract_spec.rs
+//@include prelude/imports_extract_l2.rs
 } // mod pre
 use pre::*;
 
-broadcast use {axiom_string_to_string, axiom_identifier_to_string, axiom_split_first, axiom_default_string,
+broadcast use {axiom_string_to_string, axiom_identifier_to_string, axiom_split_first,
     vstd::std_specs::iter::map_postcondition};
 
 //@item src/fixtures/imports.rs struct FixtureImport
-pub open spec fn imp_rec_v(i: FixtureImport) -> ImpRecV {
+spec fn imp_rec_v(i: FixtureImport) -> ImpRecV {
     ImpRecV { imp: ImpV { module: i.module_path@, star: i.is_star_import, names: str_views(i.imported_names@) },
               file: pbv(&i.importing_file), line: i.line }
 }
-pub open spec fn imp_rec_fn() -> spec_fn(FixtureImport) -> ImpRecV { |i: FixtureImport| imp_rec_v(i) }
-pub open spec fn imps_v(s: Seq<FixtureImport>) -> Seq<ImpRecV> { s.map_values(imp_rec_fn()) }
+spec fn imp_rec_fn() -> spec_fn(FixtureImport) -> ImpRecV { |i: FixtureImport| imp_rec_v(i) }
+spec fn imps_v(s: Seq<FixtureImport>) -> Seq<ImpRecV> { s.map_values(imp_rec_fn()) }
 pub open spec fn strs_v(s: Seq<String>) -> Seq<Seq<char>> { str_views(s) }
 
 /// stand-in for `static STDLIB_MODULES: Lazy<HashSet<&'static str>>`: membership is left uninterpreted
@@ -65,19 +67,184 @@ impl FixtureDatabase {
 @closure 1 |m: &Identifier| -> (s: String) ensures s@ == idv(m)
 @closure 2 |alias: &Alias| -> (b: bool) ensures b == (idv(&alias.name) == "*"@)
 @closure 3 |alias: &Alias| -> (s: String) ensures s@ == imported_as(*alias)
+@wrapexpr 1 `dots + &module` => `Self::vp_concat(dots, &module)` with fn vp_concat(dots: String, module: &String) -> (r: String) ensures r@ == dots@ + module@
 @sig
     ensures imps_v(r@) == spec_fixture_imports(stmts@, pv(file_path), line_index@),
-@loopvar 1 it
+@before for 1
+    let ghost mut i: int = 0;
+@forloop 1 it
+    proof { assert(stmts@.take(i) =~= stmts@); }
 @loop 1
-    invariant it.seq() == stmts@.as_ref(),
-        imps_v(imports@) == spec_fixture_imports(stmts@.take(it.index@ as int), pv(file_path), line_index@),
+    invariant 0 <= i <= stmts@.len(), it.remaining() == stmts@.as_ref().skip(i),
+        imps_v(imports@) == spec_fixture_imports(stmts@.take(i), pv(file_path), line_index@),
+    ensures imps_v(imports@) == spec_fixture_imports(stmts@, pv(file_path), line_index@),
+    decreases stmts@.len() - i
+@loopstart 1
+    let ghost i0 = i;
+    let ghost imps0 = imports@;
+    proof {
+        assert(*stmt == stmts@[i]);
+        assert(stmts@.take(i + 1).drop_last() =~= stmts@.take(i));
+        assert(stmts@.take(i + 1).last() == *stmt);
+        i = i + 1;
+    }
+@before continue 1
+    proof {
+        assert(module@ == import_module_path(*import_from));
+        assert(import_core_of(*stmt) is None);
+    }
+@before line 1
+    proof { assert(module@ == import_module_path(*import_from)); }
+@after is_star 1
+    proof {
+        let ns = import_from.names@;
+        if !is_star {
+            assert forall|k: int| 0 <= k < ns.len() implies !(idv(&(#[trigger] ns[k]).name) == "*"@) by { let y = ns.as_ref()[k]; }
+        }
+        assert(is_star == has_star(ns));
+    }
+@after names 2
+    proof { assert(str_views(names@) =~= import_from.names@.map_values(imported_as_fn())); }
+@after push 1
+    proof {
+        let v = import_rec_of(*stmt, pv(file_path), line_index@);
+        assert(v is Some);
+        assert(imp_rec_v(imports@.last()).imp.names =~= v->0.imp.names);
+        assert(imp_rec_v(imports@.last()) == v->0);
+        assert(imps_v(imports@) =~= imps_v(imps0).push(v->0));
+    }
+@after push 2
+    proof {
+        let v = import_rec_of(*stmt, pv(file_path), line_index@);
+        assert(v is Some);
+        assert(imp_rec_v(imports@.last()) == v->0);
+        assert(imps_v(imports@) =~= imps_v(imps0).push(v->0));
+    }
 @*/
 
 /*@ extract src/fixtures/imports.rs extract_pytest_plugins
 @tags C14 C01
 @ret r
+@closure 1 |target: &Expr| -> (b: bool) ensures b == is_plugins_name(*target)
 @sig
     ensures strs_v(r@) == spec_pytest_plugins(stmts@),
+@before for 1
+    let ghost mut i: int = 0;
+@forloop 1 it
+    proof { assert(stmts@.take(i) =~= stmts@); }
+@loop 1
+    invariant 0 <= i <= stmts@.len(), it.remaining() == stmts@.as_ref().skip(i),
+        strs_v(modules@) == spec_pytest_plugins(stmts@.take(i)),
+    ensures strs_v(modules@) == spec_pytest_plugins(stmts@),
+    decreases stmts@.len() - i
+@loopstart 1
+    let ghost i0 = i;
+    proof {
+        assert(*stmt == stmts@[i]);
+        assert(stmts@.take(i + 1).drop_last() =~= stmts@.take(i));
+        assert(stmts@.take(i + 1).last() == *stmt);
+        i = i + 1;
+    }
+@after is_pytest_plugins 1
+    proof {
+        let ts = assign.targets@;
+        if !is_pytest_plugins {
+            assert forall|k: int| 0 <= k < ts.len() implies !is_plugins_name(#[trigger] ts[k]) by { let y = ts.as_ref()[k]; }
+        }
+        assert(is_pytest_plugins == has_plugins_target(ts));
+    }
+@before modules 2
+    proof { assert(plugins_value(*stmt) == Some(*value)); }
+@loopvar 2 it2
+@loop 2
+    invariant it2.seq() == list.elts@.as_ref(),
+        strs_v(modules@) == str_lits(list.elts@.take(it2.index@ as int)),
+@loopstart 2
+    let ghost j0 = it2.index@ as int;
+    let ghost m0 = modules@;
+    proof { assert(*elt == list.elts@[j0]); assert(list.elts@.take(j0 + 1).drop_last() =~= list.elts@.take(j0)); }
+@loopend 2
+    proof { assert(strs_v(modules@) =~= str_lits(list.elts@.take(j0 + 1))); }
+@after for 2
+    proof { assert(list.elts@.take(list.elts@.len() as int) =~= list.elts@); }
+@loopvar 3 it3
+@loop 3
+    invariant it3.seq() == tuple.elts@.as_ref(),
+        strs_v(modules@) == str_lits(tuple.elts@.take(it3.index@ as int)),
+@loopstart 3
+    let ghost j0 = it3.index@ as int;
+    let ghost m0 = modules@;
+    proof { assert(*elt == tuple.elts@[j0]); assert(tuple.elts@.take(j0 + 1).drop_last() =~= tuple.elts@.take(j0)); }
+@loopend 3
+    proof { assert(strs_v(modules@) =~= str_lits(tuple.elts@.take(j0 + 1))); }
+@after for 3
+    proof { assert(tuple.elts@.take(tuple.elts@.len() as int) =~= tuple.elts@); }
+@loopend 1
+    proof { assert(strs_v(modules@) =~= plugins_of_value(*value)); }
+@*/
+
+// exec canary: the same real body under the claim "the FIRST assignment wins" (must FAIL at the postcondition)
+/*@ extract src/fixtures/imports.rs extract_pytest_plugins
+@tags C14
+@as canary_plugins_first_assignment_wins
+@ret r
+@closure 1 |target: &Expr| -> (b: bool) ensures b == is_plugins_name(*target)
+@sig
+    ensures stmts@.len() == 2 && plugins_value(stmts@[0]) is Some && plugins_value(stmts@[1]) is Some
+        ==> strs_v(r@) == plugins_of_value(plugins_value(stmts@[0])->0),
+@before for 1
+    let ghost mut i: int = 0;
+@forloop 1 it
+    proof { assert(stmts@.take(i) =~= stmts@); }
+@loop 1
+    invariant 0 <= i <= stmts@.len(), it.remaining() == stmts@.as_ref().skip(i),
+        strs_v(modules@) == spec_pytest_plugins(stmts@.take(i)),
+    ensures strs_v(modules@) == spec_pytest_plugins(stmts@),
+    decreases stmts@.len() - i
+@loopstart 1
+    let ghost i0 = i;
+    proof {
+        assert(*stmt == stmts@[i]);
+        assert(stmts@.take(i + 1).drop_last() =~= stmts@.take(i));
+        assert(stmts@.take(i + 1).last() == *stmt);
+        i = i + 1;
+    }
+@after is_pytest_plugins 1
+    proof {
+        let ts = assign.targets@;
+        if !is_pytest_plugins {
+            assert forall|k: int| 0 <= k < ts.len() implies !is_plugins_name(#[trigger] ts[k]) by { let y = ts.as_ref()[k]; }
+        }
+        assert(is_pytest_plugins == has_plugins_target(ts));
+    }
+@before modules 2
+    proof { assert(plugins_value(*stmt) == Some(*value)); }
+@loopvar 2 it2
+@loop 2
+    invariant it2.seq() == list.elts@.as_ref(),
+        strs_v(modules@) == str_lits(list.elts@.take(it2.index@ as int)),
+@loopstart 2
+    let ghost j0 = it2.index@ as int;
+    let ghost m0 = modules@;
+    proof { assert(*elt == list.elts@[j0]); assert(list.elts@.take(j0 + 1).drop_last() =~= list.elts@.take(j0)); }
+@loopend 2
+    proof { assert(strs_v(modules@) =~= str_lits(list.elts@.take(j0 + 1))); }
+@after for 2
+    proof { assert(list.elts@.take(list.elts@.len() as int) =~= list.elts@); }
+@loopvar 3 it3
+@loop 3
+    invariant it3.seq() == tuple.elts@.as_ref(),
+        strs_v(modules@) == str_lits(tuple.elts@.take(it3.index@ as int)),
+@loopstart 3
+    let ghost j0 = it3.index@ as int;
+    let ghost m0 = modules@;
+    proof { assert(*elt == tuple.elts@[j0]); assert(tuple.elts@.take(j0 + 1).drop_last() =~= tuple.elts@.take(j0)); }
+@loopend 3
+    proof { assert(strs_v(modules@) =~= str_lits(tuple.elts@.take(j0 + 1))); }
+@after for 3
+    proof { assert(tuple.elts@.take(tuple.elts@.len() as int) =~= tuple.elts@); }
+@loopend 1
+    proof { assert(strs_v(modules@) =~= plugins_of_value(*value)); }
 @*/
 }
 
